@@ -154,3 +154,30 @@ Lemma sw_read_message_before_error n err : sw_read_once (Some (Some n)) err = RM
 Proof. reflexivity. Qed.
 Lemma sw_read_error_only_when_nothing_readable q err : sw_read_once q err = RErr -> q = None /\ err = true.
 Proof. destruct q as [[n|]|]; cbn; try discriminate. destruct err; [auto|discriminate]. Qed.
+
+(* the stream's buffered amount after any WriteSCTP call: it grows by exactly the number of bytes the call
+   reports as written, i.e. by the message length for an accepted write and by nothing for a write that is
+   rejected (too large, stream closing) or whose hand-over to the association fails *)
+Lemma sw_write_buffered st n ppi il maxp maxmsg ok st' r cs :
+  sw_wf st -> sw_write st n ppi il maxp maxmsg ok = Some (st', r, cs) ->
+  sw_buffered st' = sw_buffered st + (match r with SwOk k => k | _ => 0 end) /\
+  (ok = true -> n <= maxmsg -> sw_state st = sw_open -> r = SwOk n).
+Proof.
+  intros W H. destruct ok.
+  - unfold sw_write in H.
+    destruct (n >? maxmsg) eqn:E1; [inversion H; subst; split; [lia|intros; lia]|].
+    destruct (negb (sw_state st =? sw_open)) eqn:E2; [inversion H; subst; split; [lia|intros _ _ Ho; rewrite Ho in E2; discriminate]|].
+    destruct (n =? 0) eqn:E0; [inversion H; subst; split; [lia|intros; f_equal; lia]|].
+    destruct (sw_packetize st n ppi il maxp) as [[[st1 chunks] un]|] eqn:Ep; [|discriminate].
+    apply sw_packetize_state in Ep. destruct Ep as (_ & Eb & _).
+    inversion H; subst. split; [assumption|reflexivity].
+  - split; [|discriminate].
+    pose proof H as H0. apply sw_senderr_identity in H; [|assumption].
+    unfold sw_write in H0.
+    destruct (n >? maxmsg); [inversion H0; subst; lia|].
+    destruct (negb (sw_state st =? sw_open)); [inversion H0; subst; lia|].
+    destruct (n =? 0) eqn:E0; [inversion H0; subst; lia|].
+    destruct (sw_packetize st n ppi il maxp) as [[[st1 chunks] un]|]; [|discriminate].
+    destruct H as [(E & _ & _)|(E & _)]; [|lia].
+    rewrite E. inversion H0. lia.
+Qed.
